@@ -4,6 +4,19 @@ import numpy as np
 from vf.oracle import colreval, compare, geom, shaper, svgeval
 
 
+def is_overflow_refusal(e):
+    """An explicit error because a value does not fit an OpenType field (never a silent wrap)."""
+    import struct
+
+    if isinstance(e, OverflowError):
+        return True
+    msg = str(e)
+    if isinstance(e, (ValueError, struct.error, AssertionError)) and ("does not fit in format" in msg or "format requires" in msg or "out of range" in msg or "out of bounds" in msg):
+        return True
+    c = e.__cause__ or e.__context__
+    return bool(c is not None and c is not e and is_overflow_refusal(c))
+
+
 def user_matrix(cfg):
     t = cfg.transform
     return geom.aff(t.a, t.b, t.c, t.d, t.e, t.f)
@@ -93,4 +106,89 @@ def check_colr_font(built, want_clip_check=True):
                     out = max(box[0] - bb[0], box[1] - bb[1], bb[2] - box[2], bb[3] - box[3])
                     if out > e:
                         problems.append({"what": "clip box cuts painted content", "input": i, "glyph": name, "layer": li, "protrusion": round(out, 3), "allowed": round(e, 3), "clip": box, "layer_bbox": bb})
+    return problems, stats
+
+
+FLIP_Y = geom.aff(1, 0, 0, -1, 0, 0)
+
+
+def svg_docs(font):
+    out = []
+    for d in font["SVG "].docList:
+        if hasattr(d, "data"):
+            out.append((d.data, d.startGlyphID, d.endGlyphID))
+        else:
+            out.append((d[0], d[1], d[2]))
+    return out
+
+
+def svg_glyph_layers(font, gid, problems=None, ctx=None):
+    """Display list (font space, y up) of what an OT-SVG renderer draws for glyph id `gid`."""
+    import re
+
+    docs = [d for d in svg_docs(font) if d[1] <= gid <= d[2]]
+    if len(docs) != 1:
+        if problems is not None:
+            problems.append(dict(ctx or {}, what=f"glyph id {gid} covered by {len(docs)} SVG documents"))
+        return None, None
+    text = docs[0][0]
+    n = len(re.findall(r'\bid="glyph%d"' % gid, text))
+    if n != 1:
+        if problems is not None:
+            problems.append(dict(ctx or {}, what=f"document has {n} elements with id glyph{gid}"))
+        return None, text
+    layers = svgeval.display_list(text, FLIP_Y, only_id=f"glyph{gid}", svg_quantum=0.001)
+    return layers, text
+
+
+def check_picosvg_font(built):
+    """OT-SVG (picosvg[z]) build: each source's glyph element renders what the source paints."""
+    cfg, font = built.cfg, built.font
+    problems = []
+    stats = {"glyphs": 0, "layers": 0, "gradient_layers": 0, "use_layers": 0, "max_h_over_eps": 0.0, "max_h": 0.0, "max_colour_excess": 0.0, "undecided_gradient_layers": 0, "nontrivial_glyphs": 0, "docs": len(svg_docs(font)), "multi_glyph_docs": sum(1 for d in svg_docs(font) if d[2] > d[1])}
+    scale_vb = {}
+    for i, inp in enumerate(built.inputs):
+        if not inp.codepoints:
+            continue
+        reached = reach(font, inp.codepoints)
+        ctx = {"input": i, "codepoints": list(inp.codepoints)}
+        if len(reached) != 1:
+            problems.append(dict(ctx, what="codepoints do not shape to one glyph", reached=reached))
+            continue
+        name = reached[0]
+        gid = font.getGlyphID(name)
+        adv = font["hmtx"][name][0]
+        ref, vb = ref_layers_for(built, i, adv)
+        ref = [l for l in ref if l.contours]
+        stats["glyphs"] += 1
+        docs = [d for d in svg_docs(font) if d[1] <= gid <= d[2]]
+        if not ref and not docs:
+            continue  # paints nothing, no document: fine
+        got, text = svg_glyph_layers(font, gid, problems, dict(ctx, glyph=name))
+        if got is None:
+            continue
+        got = [l for l in got if l.contours]
+        # reuse tolerance is in viewBox units of the glyph: scale to font units
+        s = (cfg.ascender - cfg.descender) / vb[3] * max(1.0, geom.sigma_max(user_matrix(cfg)))
+        tau = cfg.reuse_tolerance * s if cfg.reuse_tolerance and cfg.reuse_tolerance > 0 else 0.0
+        tol = compare.Tol(cfg.upem, output="svg", tau_seg=tau)
+        pr, st = compare.compare_layers(ref, got, tol)
+        for p in pr:
+            p.update(ctx)
+            p["glyph"] = name
+            if p["what"] == "outline displaced" and "layer" in p and p["layer"] < len(got):
+                gl = got[p["layer"]]
+                e_svg = getattr(gl, "err_svg", 0.0)
+                p["err_svg"] = round(e_svg, 3)
+                if gl.transformed and p["hausdorff"] <= p["eps_out"] + e_svg:
+                    p["mechanism"] = "F8-use-matrix-3-decimals"
+        problems.extend(pr)
+        stats["layers"] += len(ref)
+        stats["gradient_layers"] += st["gradient_layers"]
+        stats["undecided_gradient_layers"] += st["undecided_gradient_layers"]
+        stats["use_layers"] += sum(1 for l in got if l.transformed)
+        for k in ("max_h_over_eps", "max_h", "max_colour_excess"):
+            stats[k] = max(stats[k], st[k])
+        if len(ref) >= 2 or st["gradient_layers"] or any(l.groups for l in ref) or any(l.transformed for l in got):
+            stats["nontrivial_glyphs"] += 1
     return problems, stats
